@@ -605,8 +605,8 @@ class McDiarmidTwoSidedTest(McDiarmidOneSidedTest):
 
     def _check_mean_decrease(self, alpha: float) -> bool:
         return self._check_threshold(
-            sample_1=self.sample_increase_2,
-            sample_2=self.sample_increase_1,
+            sample_1=self.sample_decrease_2,
+            sample_2=self.sample_decrease_1,
             alpha=alpha,
         )
 
